@@ -25,8 +25,8 @@ class PotsMonitor:
         # a hand that cannot be completed cannot award its pots; histories with an explicit muck are the
         # known showdown-muck defects (C07 findings) and are not judged here
         from ..explore import exc_signature, error_shape
-        shape = error_shape(ctx.cfg, list(ctx.path) + [ev])
-        if 'after-muck' in shape:
+        shape = error_shape(ctx.cfg, list(ctx.path) + [ev], pre, ev)
+        if 'after-muck' in shape or 'after-unfaced-fold' in shape:
             ctx.counters['exceptions_after_muck_not_judged'] += 1
             return
         sig = exc_signature(exc)
